@@ -653,6 +653,11 @@ impl SvgElement {
     /// Calculate bounding box of target_shape inside self
     pub fn inscribed_bbox(&self, target_shape: &str) -> Result<Option<BoundingBox>> {
         let zstr = "0".to_owned();
+        // The round cases below read cx / cy / r directly; make sure these are
+        // final, i.e. that this element has itself been laid out.
+        if self.bbox()?.is_none() {
+            return Ok(None);
+        }
         match (target_shape, self.name.as_str()) {
             // rect inside circle
             ("rect", "circle") => {
